@@ -1,24 +1,32 @@
 #!/bin/bash
-# usage: benignverify.sh <area> <k>  -- checks that /tmp/benign/<area>/<k>.diff applies, builds and keeps the suite green; then stores it as benign/<area>-<k>.patch
+# usage: benignverify.sh <area> <k> [srcroot] [destprefix]
+# checks that <srcroot>/<area>/<k>.diff applies (fuzzy, then refreshed against HEAD), builds and keeps the suite green;
+# then stores it as benign/<destprefix><area>-<k>.patch (+ .md note)
 set -u
-A=$1; K=$2; SRC=/tmp/benign/$A/$K.diff
+A=$1; K=$2; ROOT=${3:-/tmp/benign}; PRE=${4:-}; SRC=$ROOT/$A/$K.diff
 [ -f $SRC ] || { echo "$A-$K: no diff"; exit 2; }
-D=$(mktemp -d /tmp/bnv.XXXXXX); trap 'rm -rf "$D"' EXIT
-rsync -a --exclude .git /repo/ "$D/"
-cd $D
+WT=$(mktemp -d /tmp/bnv.XXXXXX); rmdir $WT
+git -C /repo worktree add -q --detach $WT HEAD || exit 2
+trap 'git -C /repo worktree remove --force $WT >/dev/null 2>&1; rm -rf $WT' EXIT
+cd $WT
 export GOFLAGS=-mod=mod GOPROXY=off
-patch -p1 -s < $SRC || { echo "$A-$K: PATCH-DOES-NOT-APPLY"; exit 1; }
-go build ./... >/dev/null 2>&1 || { echo "$A-$K: DOES-NOT-BUILD"; exit 1; }
-if go test -mod=mod -vet=off -count=1 ./... >$D/suite.log 2>&1; then
-  mkdir -p /verif/benign; cp $SRC /verif/benign/$A-$K.patch
-  python3 - "$A" "$K" <<'PY'
+if ! git apply $SRC 2>/dev/null; then
+  patch -p1 -s --no-backup-if-mismatch < $SRC >/dev/null 2>&1 || { echo "$PRE$A-$K: PATCH-DOES-NOT-APPLY"; exit 1; }
+fi
+go build ./... >/dev/null 2>&1 || { echo "$PRE$A-$K: DOES-NOT-BUILD"; exit 1; }
+if go test -mod=mod -vet=off -count=1 ./... >$WT/.suite.log 2>&1; then
+  rm -f $WT/.suite.log
+  mkdir -p /verif/benign
+  git add -A >/dev/null 2>&1; git diff --cached HEAD > /verif/benign/$PRE$A-$K.patch
+  python3 - "$A" "$K" "$ROOT" "$PRE" <<'PY'
 import sys,re,os
-a,k=sys.argv[1],sys.argv[2]
-notes=open(f'/tmp/benign/{a}/notes.md').read() if os.path.exists(f'/tmp/benign/{a}/notes.md') else ''
+a,k,root,pre=sys.argv[1:5]
+path=os.path.join(root,a,'notes.md')
+notes=open(path).read() if os.path.exists(path) else ''
 m=re.search(r'(?ms)^## %s[:.].*?(?=^## |\Z)'%re.escape(k), notes)
-open(f'/verif/benign/{a}-{k}.md','w').write(m.group(0) if m else '(no note)\n')
+open(f'/verif/benign/{pre}{a}-{k}.md','w').write(m.group(0) if m else '(no note)\n')
 PY
-  echo "$A-$K: OK (applies, builds, suite passes)"
+  echo "$PRE$A-$K: OK (applies, builds, suite passes)"
 else
-  echo "$A-$K: SUITE-FAILS"; tail -5 $D/suite.log
+  echo "$PRE$A-$K: SUITE-FAILS"; tail -5 $WT/.suite.log
 fi
